@@ -7,56 +7,56 @@ Open Scope Z_scope.
 Ltac two W self val Hs Hv := abstract_obj W self Hs; abstract_obj W val Hv; finish.
 
 Lemma gen_v4_eq_ok self val : wf 32 self -> wf 32 val -> gen_v4_eq self val = Ok (eq_ref self val).
-Proof. intros Hs Hv. unfold gen_v4_eq, eq_ref. two 32 self val Hs Hv. Qed.
+Proof. intros Hs Hv. repeat autounfold with genip. unfold eq_ref. two 32 self val Hs Hv. Qed.
 Lemma gen_v6_eq_ok self val : wf 128 self -> wf 128 val -> gen_v6_eq self val = Ok (eq_ref self val).
-Proof. intros Hs Hv. unfold gen_v6_eq, eq_ref. two 128 self val Hs Hv. Qed.
+Proof. intros Hs Hv. repeat autounfold with genip. unfold eq_ref. two 128 self val Hs Hv. Qed.
 
 Lemma gen_v4_lt_ok self val : wf 32 self -> wf 32 val -> gen_v4_lt self val = Ok (lt_ref 32 self val).
-Proof. intros Hs Hv. unfold gen_v4_lt, lt_ref. two 32 self val Hs Hv. Qed.
+Proof. intros Hs Hv. repeat autounfold with genip. unfold lt_ref. two 32 self val Hs Hv. Qed.
 Lemma gen_v6_lt_ok self val : wf 128 self -> wf 128 val -> gen_v6_lt self val = Ok (lt_ref 128 self val).
-Proof. intros Hs Hv. unfold gen_v6_lt, lt_ref. two 128 self val Hs Hv. Qed.
+Proof. intros Hs Hv. repeat autounfold with genip. unfold lt_ref. two 128 self val Hs Hv. Qed.
 
 Lemma gen_v4_gt_ok self val : wf 32 self -> wf 32 val -> gen_v4_gt self val = Ok (gt_ref 32 self val).
-Proof. intros Hs Hv. unfold gen_v4_gt, gt_ref. two 32 self val Hs Hv. Qed.
+Proof. intros Hs Hv. repeat autounfold with genip. unfold gt_ref. two 32 self val Hs Hv. Qed.
 Lemma gen_v6_gt_ok self val : wf 128 self -> wf 128 val -> gen_v6_gt self val = Ok (gt_ref 128 self val).
-Proof. intros Hs Hv. unfold gen_v6_gt, gt_ref. two 128 self val Hs Hv. Qed.
+Proof. intros Hs Hv. repeat autounfold with genip. unfold gt_ref. two 128 self val Hs Hv. Qed.
 
 Ltac one W self Hs := abstract_obj W self Hs; finish.
 
 Lemma gen_v4_add_ok self n : wf 32 self -> gen_v4_add self n = add_ref 32 self n.
-Proof. intros Hs. unfold gen_v4_add, gen_v4_set_prefixlen, mk_net, add_ref. one 32 self Hs. Qed.
+Proof. intros Hs. repeat autounfold with genip. unfold add_ref. one 32 self Hs. Qed.
 Lemma gen_v6_add_ok self n : wf 128 self -> gen_v6_add self n = add_ref 128 self n.
-Proof. intros Hs. unfold gen_v6_add, gen_v6_set_prefixlen, mk_net, add_ref. one 128 self Hs. Qed.
+Proof. intros Hs. repeat autounfold with genip. unfold add_ref. one 128 self Hs. Qed.
 
 Lemma gen_v4_sub_ok self n : wf 32 self -> gen_v4_sub self n = sub_ref 32 self n.
-Proof. intros Hs. unfold gen_v4_sub, gen_v4_set_prefixlen, mk_net, sub_ref. one 32 self Hs. Qed.
+Proof. intros Hs. repeat autounfold with genip. unfold sub_ref. one 32 self Hs. Qed.
 Lemma gen_v6_sub_ok self n : wf 128 self -> gen_v6_sub self n = sub_ref 128 self n.
-Proof. intros Hs. unfold gen_v6_sub, gen_v6_set_prefixlen, mk_net, sub_ref. one 128 self Hs. Qed.
+Proof. intros Hs. repeat autounfold with genip. unfold sub_ref. one 128 self Hs. Qed.
 
 Lemma gen_v4_set_prefixlen_ok self p : gen_v4_set_prefixlen self p = set_plen_ref 32 self p.
-Proof. unfold gen_v4_set_prefixlen, mk_net, set_plen_ref. finish. Qed.
+Proof. repeat autounfold with genip. unfold set_plen_ref. finish. Qed.
 Lemma gen_v4_set_masklen_ok self p : gen_v4_set_masklen self p = set_plen_ref 32 self p.
-Proof. unfold gen_v4_set_masklen, mk_net, set_plen_ref. finish. Qed.
+Proof. repeat autounfold with genip. unfold set_plen_ref. finish. Qed.
 Lemma gen_v4_set_prefixlength_ok self p : gen_v4_set_prefixlength self p = set_plen_ref 32 self p.
-Proof. unfold gen_v4_set_prefixlength, mk_net, set_plen_ref. finish. Qed.
+Proof. repeat autounfold with genip. unfold set_plen_ref. finish. Qed.
 Lemma gen_v4_set_masklength_ok self p : gen_v4_set_masklength self p = set_plen_ref 32 self p.
-Proof. unfold gen_v4_set_masklength, mk_net, set_plen_ref. finish. Qed.
+Proof. repeat autounfold with genip. unfold set_plen_ref. finish. Qed.
 Lemma gen_v6_set_prefixlen_ok self p : gen_v6_set_prefixlen self p = set_plen_ref 128 self p.
-Proof. unfold gen_v6_set_prefixlen, mk_net, set_plen_ref. finish. Qed.
+Proof. repeat autounfold with genip. unfold set_plen_ref. finish. Qed.
 Lemma gen_v6_set_masklen_ok self p : gen_v6_set_masklen self p = set_plen_ref 128 self p.
-Proof. unfold gen_v6_set_masklen, mk_net, set_plen_ref. finish. Qed.
+Proof. repeat autounfold with genip. unfold set_plen_ref. finish. Qed.
 Lemma gen_v6_set_masklength_ok self p : gen_v6_set_masklength self p = set_plen_ref 128 self p.
-Proof. unfold gen_v6_set_masklength, mk_net, set_plen_ref. finish. Qed.
+Proof. repeat autounfold with genip. unfold set_plen_ref. finish. Qed.
 
 Lemma gen_v4_set_network_offset_ok self k : wf 32 self ->
   gen_v4_set_network_offset self k = set_offset_ref 32 self k.
 Proof.
-  intros Hs. unfold gen_v4_set_network_offset, gen_v4_as_decimal_broadcast, set_offset_ref.
+  intros Hs. repeat autounfold with genip. unfold set_offset_ref.
   one 32 self Hs.
 Qed.
 Lemma gen_v6_set_network_offset_ok self k : wf 128 self ->
   gen_v6_set_network_offset self k = set_offset_ref 128 self k.
 Proof.
-  intros Hs. unfold gen_v6_set_network_offset, gen_v6_as_decimal_network_maxint, set_offset_ref.
+  intros Hs. repeat autounfold with genip. unfold set_offset_ref.
   one 128 self Hs.
 Qed.
